@@ -335,6 +335,7 @@ pub fn finish(ctx: &Ctx, ev: Evidence) -> i32 {
 pub fn par_chunks<T: Send, F: Fn(usize) -> T + Sync>(threads: usize, n: usize, f: F) -> Vec<T> {
     let results: Mutex<Vec<Option<T>>> = Mutex::new((0..n).map(|_| None).collect());
     let next = std::sync::atomic::AtomicUsize::new(0);
+    let panicked: Mutex<Option<String>> = Mutex::new(None);
     std::thread::scope(|s| {
         for _ in 0..threads.min(n.max(1)) {
             s.spawn(|| loop {
@@ -342,11 +343,23 @@ pub fn par_chunks<T: Send, F: Fn(usize) -> T + Sync>(threads: usize, n: usize, f
                 if i >= n {
                     break;
                 }
-                let r = f(i);
-                results.lock().unwrap()[i] = Some(r);
+                match catch(|| f(i)) {
+                    Ok(r) => results.lock().unwrap()[i] = Some(r),
+                    Err(p) => {
+                        let mut g = panicked.lock().unwrap();
+                        if g.is_none() {
+                            *g = Some(p);
+                        }
+                        break;
+                    }
+                }
             });
         }
     });
+    if let Some(p) = panicked.into_inner().unwrap() {
+        // re-raise in the calling thread with the original message and location
+        panic!("{}", p);
+    }
     results.into_inner().unwrap().into_iter().map(|x| x.unwrap()).collect()
 }
 
@@ -528,7 +541,9 @@ pub fn install_panic_hook() {
         } else {
             "?".into()
         };
-        LAST_PANIC.with(|p| *p.borrow_mut() = Some(format!("{} @ {}", msg, loc)));
+        // a message re-raised by par_chunks already carries "message @ location"
+        let full = if msg.contains(" @ ") { msg } else { format!("{} @ {}", msg, loc) };
+        LAST_PANIC.with(|p| *p.borrow_mut() = Some(full));
     }));
 }
 
